@@ -135,7 +135,7 @@ W0 == [i |-> 1, k |-> 0, ops |-> << >>, peer |-> << >>, armed |-> FALSE, depth |
 (* The canonical observation of one dial. *)
 Canon(c, d, s) ==
   IF MayRefuse(c, d) THEN
-     [hooks |-> << >>, ops |-> << >>, closed |-> << >>, peer |-> << >>, res |-> FailRes("other"), end |-> "refused"]
+     [hooks |-> << >>, ops |-> << >>, closed |-> << >>, peer |-> << >>, res |-> FailRes("other"), end |-> "refused", short |-> FALSE]
   ELSE
   LET w == Walk(c, d, s, W0)
       ok == w.end = ""
@@ -143,7 +143,7 @@ Canon(c, d, s) ==
   IN [hooks |-> hk,
       ops |-> IF w.conn /\ ~ok THEN Append(w.ops, MkOp("C", FALSE, "", "", w.armed, FALSE)) ELSE w.ops,
       closed |-> IF ~w.conn THEN << >> ELSE IF ok THEN << 0 >> ELSE << 1 >>,
-      peer |-> w.peer, res |-> w.res, end |-> IF ok THEN "done" ELSE w.end]
+      peer |-> w.peer, res |-> w.res, end |-> IF ok THEN "done" ELSE w.end, short |-> FALSE]
 
 -----------------------------------------------------------------------------
 Init ==
